@@ -44,7 +44,7 @@ META = {
 }
 
 RES = {"dup": 0, "le_lib": 1, "orphan": 2, "invalid": 3, "connected": 4, "side": 5, "veto": 6, "reorg": 7,
-       "exec_failed": 12, "reorg_failed": 13, "recovered": 14, "recover_veto": 15}
+       "exec_failed": 12, "reorg_failed": 13, "recovered": 14, "recover_veto": 15, "refused": 16, "reorg_refused": 17}
 Z = vf.coq_Z
 
 
@@ -86,8 +86,8 @@ def node_cases(sc, obs):
     fail = bool(sc.get("fail"))
     crash = bool(sc.get("crash"))
     for k, op in enumerate(sc["ops"]):
-        if op[0] == "BAD":
-            per.setdefault(0, []).append("FOpBad %s" % Z(op[1]))
+        if op[0] in ("BAD", "REF"):
+            per.setdefault(0, []).append("%s %s" % ("FOpBad" if op[0] == "BAD" else "FOpRef", Z(op[1])))
             src.setdefault(0, []).append((k, None))
             continue
         if op[0] == "B":
@@ -133,7 +133,7 @@ def direct_predicates(sc, obs, stats):
     j = 0
     need = 0 if sc.get("election") else 2 * n // 3 + 1
     for k, op in enumerate(sc["ops"]):
-        if op[0] in ("T", "BAD"):
+        if op[0] in ("T", "BAD", "REF"):
             continue
         if op[0] == "B":
             _, i, parent, bp, conf = op[:5]
@@ -204,6 +204,15 @@ def direct_predicates(sc, obs, stats):
         if not o["lib_on_main"]:
             fails.append(("C08:lib-off-main-chain", "reported LIB (%d, id %d) is not on the main chain" % (st["lib_no"], st["lib"]),
                           {"op_index": k, "main": o["main"]}))
+        # the confirms list (the window the next proposals are computed from) holds main-chain blocks
+        # only; in particular after an abandoned reorganisation, wherever the failing block was
+        for c in st["confirms"] or []:
+            if c["no"] >= len(o["main"]) or o["main"][c["no"]] != c["id"]:
+                fails.append(("C08:confirms-off-main-chain",
+                              "after %s the confirms list holds block (%d, id %d) which is not on the main chain"
+                              % (o["res"], c["no"], c["id"]),
+                              {"op_index": k, "main": o["main"], "confirms": [[x["no"], x["id"]] for x in st["confirms"]]}))
+                break
         # never undone: heights <= previously reported LIB keep their block
         for h in range(0, min(plib_no, len(pmain) - 1) + 1):
             if h >= len(o["main"]) or o["main"][h] != pmain[h]:
@@ -261,14 +270,17 @@ def direct_predicates(sc, obs, stats):
     first = None
     jj = 0
     for kk, op in enumerate(sc["ops"]):
-        if op[0] in ("B", "T", "BAD"):
+        if op[0] in ("B", "T", "BAD", "REF"):
             continue
-        if obs[jj]["res"] in ("reorg_failed", "recover_veto") and first is None:
-            first = (kk, "C08:lib-off-main-chain-after-failed-reorg" if obs[jj]["res"] == "reorg_failed"
-                     else "C08:recovery-vetoed-by-saved-lib")
+        if obs[jj]["res"] in ("reorg_failed", "reorg_refused", "recover_veto") and first is None:
+            first = (kk, "C08:recovery-vetoed-by-saved-lib" if obs[jj]["res"] == "recover_veto"
+                     else "C08:lib-off-main-chain-after-failed-reorg")
         jj += 1
     if first is not None:
-        fails = [((first[1] if d.get("op_index", -1) >= first[0] else key), what, d) for key, what, d in fails]
+        # (the confirms list is NOT part of that residue: it is rebuilt from the main chain by the
+        # Update(old best block) that ends an abandoned reorganisation)
+        fails = [((first[1] if d.get("op_index", -1) >= first[0] and key != "C08:confirms-off-main-chain" else key), what, d)
+                 for key, what, d in fails]
     return fails
 
 
@@ -443,10 +455,12 @@ def chain_case(sc, obs):
     j = 0
     f = "F" if sc.get("fail") else ""
     for op in sc["ops"]:
-        if op[0] in ("B", "BX"):
+        if op[0] in ("B", "BX", "BR"):
             blocks[op[1]] = (op[1], op[2], blocks[op[2]][2] + 1)
             if op[0] == "BX":
                 terms.append("FOpBad %s" % Z(op[1]))
+            if op[0] == "BR":
+                terms.append("FOpRef %s" % Z(op[1]))
         elif op[0] == "L":
             terms.append("%sOpL %s" % (f, Z(op[1])))
         elif op[0] == "D":
@@ -528,16 +542,20 @@ def election_predicates(sc, obs, stats):
             rk, c = states[blocks[main[r]]["sid"]]
             spec = rk[:c]
         stats["election_steps"] = stats.get("election_steps", 0) + 1
+        def f23_class(x, y):
+            # signature of the known finding: the same ranking cut at another length
+            k = min(len(x), len(y))
+            return bpcount_changes and len(x) != len(y) and x[:k] == y[:k]
         if o["res"] in ("connected", "reorg", "restored"):
             if o["cluster"] != spec:
-                fails.append((KF if bpcount_changes else "C08:producer-set-not-function-of-chain",
+                fails.append((KF if f23_class(o["cluster"], spec) else "C08:producer-set-not-function-of-chain",
                               "producer set %s after block %d is not the ranking %s committed at reference height %d"
                               % (o["cluster"], bestno, spec, r), {"op_index": k}))
             if st["cr"] != (2 * o["size"]) // 3 + 1:
                 fails.append(("C08:confirms-required-not-current",
                               "confirmsRequired %d with %d current producers" % (st["cr"], o["size"]), {"op_index": k}))
         if op[0] in ("S", "R") and prev is not None and o["cluster"] != prev["cluster"]:
-            fails.append((KF if bpcount_changes else "C08:producer-set-differs-after-restart",
+            fails.append((KF if f23_class(o["cluster"], prev["cluster"]) else "C08:producer-set-differs-after-restart",
                           "producer set after restart %s differs from the one computed online %s for the same chain"
                           % (o["cluster"], prev["cluster"]), {"op_index": k}))
         if o["res"] == "connected" and bestno % 100 == 0 and bestno > 0:
@@ -652,7 +670,7 @@ def run(ctx):
     for sc, ob in zip(cscen, cobs):
         if sc.get("fail"):
             fcases.append(chain_case(sc, ob))
-            fcase_src.append((sc, 0, [(k, None) for k, op in enumerate(sc["ops"]) if op[0] in ("D", "L", "BX")]))
+            fcase_src.append((sc, 0, [(k, None) for k, op in enumerate(sc["ops"]) if op[0] in ("D", "L", "BX", "BR")]))
         else:
             cases.append(chain_case(sc, ob))
             case_src.append((sc, 0, [(k, {"res": "chain", "op": "C", "state": None, "chain_obs": o})
